@@ -400,5 +400,23 @@ func caseVariants(src string) [][2]string {
 	if strings.Contains(snake, "_") {
 		out = append(out, [2]string{snake, src[:i+1] + snake})
 	}
+	// spellings that name the PROTO field rather than the element: google/fhir renames elements that are reserved words
+	// (class -> class_value, for -> for_value, assert -> assert_value) and lower-cases runs of capitals (carrierAIDC ->
+	// carrier_aidc, requestURL -> request_url); the members of Reference's `reference` oneof are proto fields too
+	add(name + "Value")
+	decap := []rune(name)
+	for k := 1; k < len(decap); k++ {
+		if decap[k] >= 'A' && decap[k] <= 'Z' && decap[k-1] >= 'A' && decap[k-1] <= 'Z' {
+			for q := k; q < len(decap) && decap[q] >= 'A' && decap[q] <= 'Z'; q++ {
+				decap[q] = decap[q] - 'A' + 'a'
+			}
+		}
+	}
+	add(string(decap))
+	if name == "reference" {
+		for _, v := range []string{"uri", "fragment", "patientId", "organizationId", "practitionerId"} {
+			add(v)
+		}
+	}
 	return out
 }
